@@ -61,6 +61,7 @@ def summarise(cases):
         d["programs_with_over_1000_live_frames"] += 1 if s.get("many_live") else 0
         d["second_sessions_on_reloaded_module"] += 1 if s.get("second_session") else 0
         d["programs_calling_a_closure_held_by_a_thread_bottom_frame"] += 1 if s.get("bottom_frame_closure") else 0
+        d["programs_logged_through_the_stock_store_logger"] += 1 if s.get("stock_logger") else 0
     return dict(sorted(d.items()))
 
 
